@@ -303,7 +303,7 @@ impl RingRun<'_> {
             RingOp::FromReader { seed, len, chunks, fault } => {
                 let n = self.resolve(*len);
                 let data = seeded_bytes(*seed, n);
-                let mut script = SourceScript { chunks: chunks.clone(), eof_at: None, faults: vec![] };
+                let mut script = SourceScript { chunks: chunks.clone(), eof_at: None, faults: vec![], pauses: vec![] };
                 let mut expect_fail = false;
                 if let Some((at, f)) = fault {
                     let at = self.resolve(*at).min(n.saturating_sub(1));
